@@ -110,24 +110,38 @@ def open_finding_cfgs(findings):
 
 class Slots:
     """A pool of persistent cargo target dirs so concurrent cargo-kani runs do not
-    fight over one build directory."""
+    fight over one build directory. Slots are claimed with flock on a lock file so that
+    several check.py processes can run at the same time."""
 
     def __init__(self, n):
+        self.n = n
+        self.held = {}
         self.lock = threading.Lock()
-        self.free = list(range(n))
-        self.cv = threading.Condition(self.lock)
 
     def acquire(self):
-        with self.cv:
-            while not self.free:
-                self.cv.wait()
-            return self.free.pop(0)
+        import fcntl
+        os.makedirs(WORK, exist_ok=True)
+        while True:
+            for i in range(self.n):
+                with self.lock:
+                    if i in self.held:
+                        continue
+                    f = open(os.path.join(WORK, "slot%s-%d.lock" % (ALT, i)), "w")
+                    try:
+                        fcntl.flock(f, fcntl.LOCK_EX | fcntl.LOCK_NB)
+                    except OSError:
+                        f.close()
+                        continue
+                    self.held[i] = f
+                    return i
+            time.sleep(0.5)
 
     def release(self, i):
-        with self.cv:
-            self.free.append(i)
-            self.free.sort()
-            self.cv.notify()
+        import fcntl
+        with self.lock:
+            f = self.held.pop(i)
+        fcntl.flock(f, fcntl.LOCK_UN)
+        f.close()
 
 
 class MemGate:
@@ -247,7 +261,7 @@ def run_harness(h, ctx, playback=False):
         timeout = h.get("timeout_s", 600) * (4 if playback else 1)
         status = "done"
         with open(logp, "w") as lf:
-            p = subprocess.Popen(cmd, cwd=HARNESS, env=ctx["env"], stdout=lf, stderr=subprocess.STDOUT, preexec_fn=limits(mem, h.get("big_stack", False)))
+            p = subprocess.Popen(cmd, cwd=HARNESS, env=ctx["env"], stdout=lf, stderr=subprocess.STDOUT, preexec_fn=limits(mem * 3 if playback else mem, h.get("big_stack", False)))  # kani-driver needs room to parse the CBMC trace
             try:
                 p.wait(timeout=timeout)
             except subprocess.TimeoutExpired:
